@@ -45,6 +45,15 @@ def gen_rewriter(rng):
         a = gen_rw_regex(rng)
         r["old"], r["old_ast"] = "/" + G.pr(a) + "/", a
         r["new"] = rng.choice(TEMPLATES)
+    elif rng.random() < .3:
+        # self-overlapping literals over a tiny alphabet: the replacement (or its tail plus what follows) can look like the
+        # searched text again, in names with runs of the same character
+        ab = rng.choice(["._", ".a", "ab", "-_"])
+        n = rng.choice([1, 2, 2, 3])
+        r["old"] = "".join(rng.choice(ab) for _ in range(n))
+        r["new"] = "".join(rng.choice(ab) for _ in range(rng.choice([n, n, n + 1, max(0, n - 1)])))
+        r["max"] = rng.choice([-1, -1, 1, 2, 3])
+        r["runs"] = ab
     else:
         r["old"] = rng.choice(G.TOK + [".", "o", "a.", ".."])
         r["new"] = rng.choice(G.TOK + ["", "_", "long.replacement", r["old"] + r["old"]])
@@ -82,7 +91,12 @@ def gen(rng, tier):
             for rw in c["rewriters"]:
                 if rng.random() < .3 and not rw["old"].startswith("/"):
                     name = name + "." + rw["old"] + rng.choice(["", rw["old"], "." + rw["old"]])
-            name = name.replace("..", ".").strip(".") if rng.random() < .7 else name
+            runs = [rw["runs"] for rw in c["rewriters"] if rw.get("runs")]
+            if runs and rng.random() < .6:
+                ab = rng.choice(runs)
+                name = name + "".join(rng.choice([ab[0] * rng.randrange(2, 6), ab[1], ab[0] + ab[1]]) for _ in range(rng.randrange(1, 4))) + "z"
+            elif rng.random() < .7:
+                name = name.replace("..", ".").strip(".")
             name = name or "n"
             ts += rng.randrange(1, 30)
             sp = lambda: rng.choice([" ", " ", "  ", "\t", " \t", "   "])
